@@ -409,6 +409,8 @@ def coq_op(op):
         return "OpBusy"
     if k == "sleep":
         return "OpSleep"
+    if k == "advto":
+        return "OpAdvanceTo %s" % q(op["to"])
     raise ValueError(k)
 
 
@@ -418,7 +420,7 @@ def coq_obs(op):
     k, c = op["kind"], q(op["clock"])
     if k in ("start", "resume"):
         return "OTrial %s %s" % (natlit(op["out"]), c)
-    if k in ("pause", "stop", "sleep"):
+    if k in ("pause", "stop", "sleep", "advto"):
         return "ONone %s" % c
     if k == "fetch":
         rs = lst(["(%s, %s, %s, %s, %s)" % (natlit(t), natlit(l), q(e), lst([qm(x) for x in ms]), q(ts))
@@ -562,7 +564,8 @@ def check_log(spec, log):
         # ---- every stretch of real time is charged at most once: what the calls so far charged as outside
         # time cannot exceed the real time that has elapsed on the (fake) real-time clock
         outside_total += c - prev_clock - (spec["sleep"] if k == "sleep" else
-                                           (d["stop"] + NUDGE + d["stopc"] + NUDGE) if k in ("pause", "stop") else 0.0)
+                                           (d["stop"] + NUDGE + d["stopc"] + NUDGE) if k in ("pause", "stop") else
+                                           max(op["to"] - prev_clock, 0.0) if k == "advto" else 0.0)
         if "real" in op and outside_total > op["real"] * (1 + 1e-9) + 1e-9:
             viol.append(("after op %d (%s) the calls have charged %r of simulated time for time spent outside the backend, "
                          "but only %r of real time has elapsed" % (i, k, outside_total, op["real"]),
@@ -577,6 +580,8 @@ def check_log(spec, log):
             want = prev_clock + op["dt"]
         elif k in ("pause", "stop"):
             want = prev_clock + op["dt"] + d["stop"] + NUDGE + d["stopc"] + NUDGE
+        elif k == "advto":
+            want = max(op["to"], prev_clock)      # time_keeper.advance_to never moves the clock backwards
         else:
             want = prev_clock
         if not close(c, want):
@@ -760,6 +765,8 @@ def near_tie(spec, log, rel=1e-9):
             clock = clock + Dual(op["dt"])
         elif k == "sleep":
             clock = clock + sleep
+        elif k == "advto":
+            clock = Dual.max(Dual(op["to"]), clock)
         elif k in ("pause", "stop"):
             c1 = clock + Dual(op["dt"])
             ts = c1 + d["stop"]
